@@ -50,6 +50,8 @@ MAP = {
  "C19": [("Adapters", ["any_iter_yields", "any_iter_shape_independent", "any_iter_lazy", "any_iter_outer_once", "any_iter_closes_async_source",
                       "await_each_yields", "await_each_lazy", "await_each_one_at_a_time", "apply_order", "apply_call_last_once",
                       "apply_positional_before_keyword", "apply_awaits_before_call"])],
+ "C20": [("Retention", ["tee_buffer_is_lead", "tee_done_children_hold_nothing", "largest_fill_bound", "replace_lent_length", "merge_heads_bound",
+                       "put_src_length", "drop_src_length", "fill_batch_bound"])],
  "C06": [("RegularTools", ["fault_transparent", "fault_outcome", "fault_prefix", "run_tool_regular"])],
  "C18": [("RegularTools", ["fault_transparent", "run_tool_regular"]), ("ReleaseAll", ["tool_releases", "tool_releases_closed"])],
 }
@@ -65,7 +67,8 @@ MODELS = {"C01": CALC, "C02": CALC, "C04": CALC, "C05": CALC, "C06": CALC, "C18"
           "C07": "Require Import V.Model.Borrow.\n", "C08": "Require Import V.Model.Borrow.\n",
           "C09": "Require Import V.Model.Tee.\n", "C10": "Require Import V.Model.Lru.\n", "C11": "Require Import V.Model.LruConc.\n",
           "C12": "Require Import V.Model.CachedProperty.\n", "C13": "Require Import V.Model.ContextManager.\n",
-          "C14": "Require Import V.Model.ExitStack.\n", "C15": "Require Import V.Model.Decorator.\n", "C16": "Require Import V.Model.GroupBy.\n", "C19": "Require Import V.Model.Adapters.\n"}
+          "C14": "Require Import V.Model.ExitStack.\n", "C15": "Require Import V.Model.Decorator.\n", "C16": "Require Import V.Model.GroupBy.\n", "C19": "Require Import V.Model.Adapters.\n",
+          "C20": "Require Import V.Kernel.Monad V.Model.Builtins V.Model.Itertools V.Model.Heapq V.Model.Tee V.Proofs.Tee.\n"}
 def statement(mod, name):
     src = open(os.path.join(COQ, "Proofs", mod + ".v")).read()
     m = re.search(r"^(Theorem|Corollary|Lemma|Example|Fact)\s+%s\b(.*?)\n\s*Proof\." % re.escape(name), src, flags=re.S | re.M)
